@@ -668,6 +668,8 @@ C18Params(o, k, newId) ==
       after == e.after
       u == o.case.unit
   IN (IF LevelsCover(after) /\ ChoquetCover(o, after) THEN {} ELSE {BFail("C18", "parameters-not-extended", "")})
+     (* the merged parameters are the old parameters plus the entry of the new criterion: every method option is kept *)
+     \cup (IF OptionsSame(before, after) THEN {} ELSE {BFail("C18", "method-options-changed", "")})
      \cup (IF Method(o) = "choquetIntegral" /\ ChoquetCover(o, after) /\ ChoquetCover(o, before)
               /\ ~(/\ CapOf(after, {newId}) >= 0 /\ CapOf(after, {newId}) <= u
                    /\ \A S \in (SUBSET StCritIds(before)) \ {{}} :
